@@ -269,6 +269,12 @@ func initContainer(c containerConfig) error {
 }
 
 func initFileSystem(c containerConfig) error {
+	// mark the whole tree private first: the mounts of a namespace created together with
+	// a user namespace are slaves of the host's, and a bind mount made below would keep
+	// receiving the mounts the host makes under its source later on
+	if err := syscall.Mount("none", "/", "", syscall.MS_REC|syscall.MS_PRIVATE, ""); err != nil {
+		return fmt.Errorf("init_fs: make / private: %w", err)
+	}
 	// mount tmpfs as root
 	const tmpfs = "tmpfs"
 	if err := syscall.Mount(tmpfs, c.ContainerRoot, tmpfs, 0, ""); err != nil {
